@@ -31,6 +31,8 @@ var Hosts = []string{
 	// Names with many labels (walks over parent domains have no small bound).
 	"a.b.c.d.e.f.g.h.i.j.k.l.example.org", DeepHost,
 	"myshop.example", "news.example.org",
+	// Names in which a five-byte window repeats with overlap.
+	"aaaaaa.example", "xyzxyzxy.com", "wwwwww.ads.net",
 	// A label of the maximum length of 63 characters.
 	Label63 + ".com", "x." + Label63 + ".a.com",
 }
@@ -125,7 +127,7 @@ var ClientNets = func() []Client {
 	var out []Client
 	for _, s := range []string{
 		"127.0.0.1", "192.168.3.0/24", "192.168.3.7", "10.0.0.0/8", "10.1.0.0/16", "::1", "fe01::/64",
-		"fe01::1", "2001:db8::/32", "1.2.3.4", "192.168.0.0/16", "0.0.0.0/0", "172.16.0.1",
+		"fe01::1", "2001:db8::/32", "1.2.3.4", "192.168.0.0/16", "0.0.0.0/0", "172.16.0.1", "::ffff:0:0/96", "::ffff:192.168.3.7",
 	} {
 		out = append(out, Client{Text: s, Prefix: mustPrefix(s), IsNet: true})
 	}
@@ -139,6 +141,8 @@ var ClientIPs = []netip.Addr{
 	netip.MustParseAddr("10.1.2.3"), netip.MustParseAddr("10.200.0.1"), netip.MustParseAddr("::1"),
 	netip.MustParseAddr("fe01::1"), netip.MustParseAddr("fe01:0:0:1::1"), netip.MustParseAddr("2001:db8::5"),
 	netip.MustParseAddr("1.2.3.4"), netip.MustParseAddr("8.8.8.8"), netip.MustParseAddr("172.16.0.1"),
+	// IPv4-mapped IPv6 spellings of addresses above (another address family).
+	netip.MustParseAddr("::ffff:192.168.3.7"), netip.MustParseAddr("::ffff:10.1.2.3"), netip.MustParseAddr("::ffff:1.2.3.4"),
 }
 
 // RequestClientNames are request client names.
